@@ -702,12 +702,13 @@ func (sl *SignalLayout) decodeStandardSignal(stdSig *StandardSignal, rawValue ui
 		if sigType.signed {
 			valueType = SignalValueTypeInt
 
+			extValue := rawValue
 			if rawValue&(1<<(sigType.size-1)) != 0 {
 				// extend sign of raw value
-				rawValue |= (1<<64 - 1) << sigType.size
+				extValue |= (1<<64 - 1) << sigType.size
 			}
 
-			value = int64(rawValue)*int64(sigType.scale) + int64(sigType.offset)
+			value = int64(extValue)*int64(sigType.scale) + int64(sigType.offset)
 
 		} else {
 			valueType = SignalValueTypeUint
